@@ -75,4 +75,15 @@ theorem Cont.run_nodup (ops : List (ContOp K)) : (({} : Cont K).runOuts ops).1.m
 example : (({} : Cont Nat).runOuts [.insert 1, .insert 1, .remove 1, .remove 1, .insert 1, .insert 2]).2
     = [true, false, true, false, true, true] := by decide
 
+/-- `len` accounts for the history: after any sequence of `insert` / `remove` calls the container holds exactly
+    as many nodes as `insert` calls returned `true` minus `remove` calls that returned `true` - a refused insert
+    and a failed remove change nothing -/
+theorem Cont.run_len (ops : List (ContOp K)) :
+    (({} : Cont K).runOuts ops).1.len + countOk false ops (({} : Cont K).runOuts ops).2 =
+      countOk true ops (({} : Cont K).runOuts ops).2 := by
+  have := Cont.run_len' ({} : Cont K) (by simp) ops
+  simpa [Cont.len] using this
+
+example : (({} : Cont Nat).runOuts [.insert 1, .insert 1, .remove 1, .remove 1, .insert 1, .insert 2]).1.len = 2 := by decide
+
 end G
